@@ -1,4 +1,15 @@
-"""C19 - Observers see each notification once; time stamps are unique and increasing."""
+"""C19 - Observers see each notification once; time stamps are unique and increasing.
+
+Families of inputs (all expectations computed or validated by TLC):
+  small exhaustive   Observers.tla / StampCells.tla state graphs (2 observables x 3 observers, 3 cells): replay + recorded traces,
+                     object variants plain / derived+member / multiple inheritance
+  far stamps         FarGap.tla / FarStamps.tla: the counter moves by 2^31-1 .. 2^32+1 inside a history (own process)
+  wide / bursty      ObserversWide.tla: n observers, n notifications / polls / registration churns between observations,
+                     n on the 2^7 .. 2^16 boundaries (macro actions; own processes)
+  thread groups      thread-confined observer groups sharing only the counter, each thread validated by ObserversTrace (plain + TSan)
+  concurrent bursts  StampsTrace on value-sorted logs (plain + TSan); thorough: bursts crossing 2^31 / 2^32
+Source mutations the check was tried against: selftest/mutations/C19/*.diff (each '# expect: VIOLATION' verified with try_patch.sh).
+"""
 import json, os, random, time
 from .. import tla, build, adt, adtcheck, trace
 from ..tla import VERIF, WORK, InfraError
@@ -18,7 +29,12 @@ LEVEL_TEXT = ("TLC checks on bounded instances (2 observables x 3 observers, eve
               "random 250-step executions over larger universes and multi-threaded bursts of 2-8 threads creating, renewing, copying and moving "
               "stamps (also under TSan) are validated by TLC trace specifications on the logged values; far-stamp histories (the real counter "
               "advanced by 2^31+1 values - thorough: 2^31-1, 2^31, 2^31+1, 2^32, 2^32+1 - between an observer's poll and the next notification "
-              "and between compared / copied / renewed stamps), scripted in the product of the two contract specifications, are replayed too")
+              "and between compared / copied / renewed stamps), scripted in the product of the two contract specifications, are replayed too; "
+              "wide / bursty histories (n observers on an observable, n notifications, polls and registration churns between two observations, "
+              "non-LIFO mass destruction; n = 1, 2, 127..129, 255..257, 511..513, 1023..1025, 4095..4097, 65535..65537) as macro actions of a "
+              "set-level contract whose invariants and per-observer declarative reading TLC checks; thread-confined observer groups on 2-8 "
+              "threads sharing only the stamp counter, each thread's recorded history validated against the sequential contract (also under "
+              "TSan); thorough: bursts whose values cross 2^31 / 2^32 while 8 threads draw them")
 LEVEL_NOTE = ("bounded: exhaustive parts use 2 observables x 3 observers, 3 stamp cells, 3-4 threads x 2-3 counter operations; the real "
               "concurrent executions are sampled (free-running threads), not schedule-controlled; observers are checked single-threaded (the "
               "statement's schedules quantifier is about time stamps); copying an Observer / Observable object is outside the statement and not "
@@ -37,7 +53,7 @@ MUT_OBS = {"Notify", "Poll", "PollAll", "DestroyObservable", "DestroyObserver", 
 ALL_OBS = ["CreateObservable", "CreateObserver", "Notify", "Poll", "PollAll", "DestroyObservable", "DestroyObserver", "Teardown"]
 MUT_TS = {"Renew", "CopyCtor", "MoveCtor", "CopyAssign", "MoveAssign", "Destroy"}
 ALL_TS = ["Create", "Renew", "CopyCtor", "MoveCtor", "CopyAssign", "MoveAssign", "Destroy"]
-OBS_VARIANTS = ["plain", "derived"]
+OBS_VARIANTS = ["plain", "derived", "mi"]
 TRACE_NS, TRACE_NW, TRACE_NC = 3, 6, 5
 
 
@@ -441,7 +457,7 @@ def burst_configs(rnd, quick):
         cfgs.append({"threads": T, "ops": ops, "seed": rnd.randint(1, 10 ** 6), "shared": 3, "sync": sync})
     # many short bursts: all threads hit the counter in their first few operations
     for _ in range(30 if quick else 300):
-        cfgs.append({"threads": rnd.choice([2, 3, 4, 8]), "ops": rnd.choice([1, 3, 10, 50, 200]), "seed": rnd.randint(1, 10 ** 6),
+        cfgs.append({"threads": rnd.choice([1, 2, 3, 4, 8]), "ops": rnd.choice([1, 3, 10, 50, 200]), "seed": rnd.randint(1, 10 ** 6),
                      "shared": rnd.choice([0, 1, 3]), "sync": rnd.choice([0, 0, 4, 16])})
     return cfgs
 
@@ -487,6 +503,172 @@ def negative_control(chk, module, cfg, expect, what, r):
     chk.cov.setdefault("negative_controls", []).append({"module": module + "/" + cfg, "what": what, "refuted_invariant": r.violated,
                                                         "distinct_states": r.distinct, "depth": r.depth})
     chk.log("negative control %s: %s refuted by TLC (invariant %s, %d states)" % (cfg, what, r.violated, r.distinct))
+
+
+# ---------------------------------------------------------------------------
+# wide / bursty observer histories: counts on 2^7 .. 2^16 boundaries (spec/utility/ObserversWide.tla)
+# ---------------------------------------------------------------------------
+API_WIDE = "ObserverWide"
+WIDE_ACTIONS = ["CreateRange", "NotifyMany", "PollRange", "PollMany", "DestroySel", "Churn", "DestroyObservable", "Teardown"]
+
+
+def wide_job(exe, quick):
+    """Runs beside the rest of the check: TLC writes one history per (count, shape) - every expected value is TLC's -, then the
+    histories are performed (the big ones in processes of their own).  Touches nothing of `chk`; see wide_collect."""
+    import glob
+    from concurrent.futures import ThreadPoolExecutor
+    cfg = "ObserversWide.cfg" if quick else "ObserversWide_thorough.cfg"
+    d = os.path.join(WORK, "cases", "c19-wide")
+    os.makedirs(d, exist_ok=True)
+    prefix = os.path.join(d, "cases-%d" % os.getpid())
+    for f in glob.glob(prefix + "*"):
+        os.remove(f)
+    # the evaluation of set constructors over 10^5 ids nests deeply in TLC: give its threads a big stack
+    r = tla.run_tlc(os.path.join(SPEC, "ObserversWide.tla"), os.path.join(SPEC, cfg), workers=4, timeout=3000,
+                    env={"OUT": prefix, "_JAVA_OPTIONS": "-Xss512m"}, tag="c19-wide")
+    cases = []
+    for f in sorted(glob.glob(prefix + "*")):
+        with open(f) as fh:
+            for line in fh:
+                if line.strip():
+                    cases.append(json.loads(line))
+        os.remove(f)
+    cases.sort(key=lambda c: (c["n"], c["shape"]))
+    for c in cases:
+        for st in c["h"]:
+            if isinstance(st["exp"].get("trues"), list):
+                st["exp"]["trues"].sort()              # TLC enumerates a set: ascending order is a format conversion
+    small = [c for c in cases if c["n"] < 10000]
+    big = [c for c in cases if c["n"] >= 10000]
+    groups = ([small] if small else []) + [[c] for c in big]
+    env = dict(FAST_SAN)
+    env["ASAN_OPTIONS"] += ":quarantine_size_mb=64"
+
+    def one(i):
+        return adt.run_driver(exe, [c["h"] for c in groups[i]], "c19-wide-%d" % i, isolate=1,
+                              env=env, timeout=3000, extra_args=["--timeout-ms", "900000"])
+    with ThreadPoolExecutor(max_workers=max(1, min(8, len(groups)))) as ex:
+        runs = list(ex.map(one, range(len(groups))))
+    return r, cfg, groups, runs
+
+
+def wide_collect(chk, fut):
+    r, cfg, groups, runs = fut.result()
+    if not r.ok:
+        raise InfraError("ObserversWide does not satisfy its own invariants (violated=%s, error=%s):\n%s" % (r.violated, r.error, r.out[-2500:]))
+    ncases = sum(len(g) for g in groups)
+    chk.add_model("ObserversWide/" + cfg, r, "wide / bursty histories: set-level invariants, per-observer declarative reading; %d histories emitted" % ncases)
+    if ncases == 0:
+        raise InfraError("ObserversWide emitted no history")
+    info = {"histories": ncases, "counts": sorted({c["n"] for g in groups for c in g}), "polls_compared": 0, "real_observers_created": 0, "wall_s": 0.0}
+    for g, (res, rc, stderr, wall) in zip(groups, runs):
+        hs = [c["h"] for c in g]
+        info["wall_s"] = round(max(info["wall_s"], wall), 1)
+        if rc not in (0,) and not res:
+            if "Sanitizer" not in stderr and "runtime error" not in stderr:
+                raise InfraError("wide driver produced nothing (rc=%s): %s" % (rc, stderr[-2000:]))
+        for mm in adt.compare(hs, res, rc, stderr):
+            c = g[mm["case"]]
+            if mm["kind"] == "missing":
+                if "Sanitizer" in stderr or "runtime error" in stderr:
+                    mm.update(kind="crash", field="crash", action=c["h"][-1]["a"])
+                else:
+                    raise InfraError("wide driver stopped without result for n=%d shape=%d (rc=%s): %s" % (c["n"], c["shape"], rc, stderr[-1500:]))
+            exp, obs = mm.get("expected"), mm.get("observed")
+            what = "%s: n=%d shape=%d step %d %s(%s): %s expected %s observed %s" % (
+                API_WIDE, c["n"], c["shape"], mm["step"], mm.get("action"), json.dumps(mm.get("arg")), mm["field"],
+                json.dumps(exp)[:200], json.dumps(obs)[:200])
+            rep = {"kind": "history", "property": chk.pid, "tag": "c19-wide", "sig_prefix": API_WIDE, "meta": None, "history": c["h"],
+                   "mismatch": {k: v for k, v in mm.items() if k not in ("stderr", "expected", "observed")},
+                   "info": {"n": c["n"], "shape": c["shape"]}}
+            if mm.get("stderr"):
+                rep["stderr_tail"] = mm["stderr"][-2500:]
+            chk.violation(sig_of(API_WIDE, mm), what, rep)
+        for ci, c in enumerate(g):
+            o = (res.get(ci) or {}).get("obs", [])
+            info["polls_compared"] += sum(1 for k, st in enumerate(c["h"]) if st["a"] in ("PollRange", "PollMany") and k < len(o) and "trues" in o[k])
+            info["real_observers_created"] += sum(max(0, st["arg"]["hi"] - st["arg"]["lo"] + 1) for st in c["h"] if st["a"] == "CreateRange")
+        chk.count_actions(hs)
+        chk.cov["evaluations"] += len(hs)
+        chk.cov["distinct_nontrivial"] += len(hs)
+    chk.require_actions(WIDE_ACTIONS)
+    # vacuity guard: every count of the configuration was performed in every shape, with its polls observed
+    if not chk.violations:
+        need_polls = sum(1 for g in groups for c in g for st in c["h"] if st["a"] in ("PollRange", "PollMany"))
+        if info["polls_compared"] != need_polls:
+            raise InfraError("vacuity guard: %d of %d polls of the wide histories were observed" % (info["polls_compared"], need_polls))
+        if max(info["counts"]) < 65536 or not {255, 256, 257} <= set(info["counts"]):
+            raise InfraError("vacuity guard: the wide histories do not reach the 2^8 / 2^16 boundaries: %s" % info["counts"])
+    chk.cov["wide_observers"] = info
+    chk.log("wide observers: %d histories (counts %s), %d real observers created, %d polls compared, slowest process %.1fs"
+            % (ncases, info["counts"], info["real_observers_created"], info["polls_compared"], info["wall_s"]))
+
+
+# ---------------------------------------------------------------------------
+# thread-confined observer groups: threads share only the stamp counter; each thread's history must satisfy Observers.tla
+# ---------------------------------------------------------------------------
+API_MT = "Observer/threads"
+
+
+def mt_configs(rnd, quick):
+    cfgs = []
+    plan = [(2, 1500, 0), (4, 1000, 16), (8, 600, 4)] if quick else [(2, 6000, 0), (3, 3000, 64), (4, 4000, 16), (8, 2500, 4), (8, 2500, 0)]
+    for T, steps, sync in plan:
+        cfgs.append({"lists": [rand_observer_actions(rnd, steps) for _ in range(T)], "sync": sync})
+    for _ in range(6 if quick else 40):       # short ones: every thread creates and notifies in its first steps
+        T = rnd.choice([2, 3, 4, 8])
+        cfgs.append({"lists": [rand_observer_actions(rnd, rnd.choice([5, 20, 80])) for _ in range(T)], "sync": rnd.choice([0, 1, 4])})
+    return cfgs
+
+
+def run_mt(chk, exe, cfgs, tag, san):
+    hists = [[{"a": "Threads", "arg": c}] for c in cfgs]
+    res, rc, stderr, wall = adt.run_driver(exe, hists, tag, isolate=1, timeout=2400, meta={"variant": "plain", "nw": TRACE_NW},
+                                           extra_args=["--timeout-ms", "600000"])
+    execs, owner = [], []         # one execution per thread
+    for i, c in enumerate(cfgs):
+        r = res.get(i)
+        if r is None:
+            raise InfraError("driver %s gave no result for thread group %d (rc=%s): %s" % (exe, i, rc, stderr[-1500:]))
+        if "crash" in r or "timeout" in r:
+            if "timeout" in r:
+                ev = {"a": "timeout"}
+            elif san == "thread" and (r["crash"].get("status") == 95 or "ThreadSanitizer" in stderr):
+                ev = {"a": "race", "obs": r["crash"]}
+            else:
+                ev = {"a": "crash", "obs": r["crash"]}
+            execs.append([ev])
+            owner.append((i, -1))
+            continue
+        o = r["obs"][0]
+        if "threads" not in o:
+            execs.append([{"a": "malformed", "obs": {"what": str(o)[:200]}}])
+            owner.append((i, -1))
+            continue
+        for t, (acts, obs) in enumerate(zip(c["lists"], o["threads"])):
+            if len(obs) != len(acts):
+                raise InfraError("thread %d of group %d returned %d observations for %d actions" % (t, i, len(obs), len(acts)))
+            execs.append([{"a": st["a"], "arg": st.get("arg", []), "obs": ob} for st, ob in zip(acts, obs)])
+            owner.append((i, t))
+    acc, rej, stats = trace.validate(os.path.join(SPEC, "ObserversTrace.tla"), os.path.join(SPEC, "ObserversTrace.cfg"), execs, tag)
+    chk.cov["traces_validated_against_impl"] += acc + len(rej)
+    chk.cov.setdefault("trace_events_validated", 0)
+    chk.cov["trace_events_validated"] += stats["events"]
+    chk.log("trace validation %s: %d per-thread histories of %d thread groups accepted, %d rejected, %d events, %.1fs (driver %.1fs)"
+            % (tag, acc, len(cfgs), len(rej), stats["events"], stats["wall"], wall))
+    for rj in rej:
+        ev = rj["event"]
+        gi, t = owner[rj["exec"]]
+        abnormal = ev.get("a") in ("crash", "timeout", "race", "malformed")
+        mm = {"action": ev.get("a"), "cls": "san=%s" % (san or "none"), "field": ev["a"] if abnormal else "trace-rejected"}
+        what = "%s: thread %d of a group of %d (sync %d): its history is rejected by ObserversTrace at event %d: %s" % (
+            API_MT, t, len(cfgs[gi]["lists"]), cfgs[gi]["sync"], rj["line"], json.dumps(ev)[:300])
+        rep = {"kind": "threads", "property": chk.pid, "tag": tag, "san": san, "config": cfgs[gi], "thread": t,
+               "events": execs[rj["exec"]][:rj["line"] + 1], "rejected_at": rj["line"]}
+        if abnormal:
+            rep["stderr_tail"] = stderr[-3000:]
+        chk.violation(sig_of(API_MT, mm), what, rep)
+    return acc, rej, execs
 
 
 # ---------------------------------------------------------------------------
@@ -594,6 +776,8 @@ def run(chk, replay=None):
         "concurrent executions are free-running: interleavings are sampled, not enumerated; copies are taken only from stamps no other thread changes",
         "the burst logs are sorted by value outside TLC; StampsTrace rejects an unsorted or incomplete list instead of trusting it",
         "far stamps: one scripted history per distance class (quick: 2^31+1 only); distances beyond 2^32+1 and a wrap of the 64-bit counter are not reached",
+        "wide histories: three scripted shapes per count (quick: 9 counts up to 65536, thorough: 21 counts up to 65537); counts beyond 2^16+1 are not explored",
+        "thread groups: every thread uses only its own observables / observers (observers are not thread-safe and the statement does not say they are)",
     ]
     if replay:
         return do_replay(chk, replay)
@@ -604,6 +788,16 @@ def run(chk, replay=None):
     far_hs = far_histories(chk, quick)
     far_pool = ThreadPoolExecutor(max_workers=len(far_hs))
     far_futures = far_start(far_pool, exe_far, far_hs)
+    exe_wide = build.build("drv_observers_wide", san="address,undefined", driver_dir="observers")
+    wide_pool = ThreadPoolExecutor(max_workers=2)
+    wide_future = wide_pool.submit(wide_job, exe_wide, quick)
+    cross_future = None
+    if not quick:
+        # bursts whose values cross 2^31 / 2^32 while 8 threads draw them: the counter is first moved to 20000 below the boundary
+        exe_b0 = build.build("drv_stamps", driver_dir="stamps")
+        cross_cfgs = [{"threads": 8, "ops": 10000, "seed": rnd.randint(1, 10 ** 6), "shared": 3, "sync": 16, "pre": [1, (1 << 30) - 20000]},
+                      {"threads": 8, "ops": 10000, "seed": rnd.randint(1, 10 ** 6), "shared": 3, "sync": 0, "pre": [3, (1 << 30) - 20000]}]
+        cross_future = wide_pool.submit(run_bursts, chk, exe_b0, cross_cfgs, "c19-burst-cross", "")
 
     # 1. design level (independent TLC runs, started together) ---------------------------------------------
     jobs = [
@@ -685,6 +879,20 @@ def run(chk, replay=None):
                 pending_guards.append(guards.submit(corruption_guard_observers, chk, execs, random.Random(chk.seed + 11)))
     chk.add_sample({"kind": "recorded-trace-prefix", "object": "Observable/Observer", "actions": acts[0][:8]})
 
+    # 3b. thread-confined observer groups (threads share only the stamp counter), plain and under TSan -------
+    mcfgs = mt_configs(rnd, quick)
+    exe_m = build.build("drv_observers_mt", driver_dir="observers")
+    acc, rej, mexecs = run_mt(chk, exe_m, mcfgs, "c19-obs-mt", "")
+    exe_mt = build.build("drv_observers_mt", backend="Debug", san="thread", driver_dir="observers")
+    tm = mcfgs[:2] + mcfgs[-(4 if quick else 20):]
+    tm = [{"lists": [l[:800] for l in c["lists"]], "sync": c["sync"]} for c in tm]
+    run_mt(chk, exe_mt, tm, "c19-obs-mt-tsan", "thread")
+    chk.cov["evaluations"] += len(mcfgs) + len(tm)
+    chk.cov["thread_confined_observer_groups"] = {"plain": len(mcfgs), "tsan": len(tm), "threads": sum(len(c["lists"]) for c in mcfgs + tm),
+                                                  "polls_true": sum(1 for e in mexecs for x in e if x.get("a") == "Poll" and (x.get("obs") or {}).get("ret") is True)}
+    if not rej and chk.cov["thread_confined_observer_groups"]["polls_true"] < 50:
+        raise InfraError("vacuity guard: the thread groups hardly saw a notification: %s" % chk.cov["thread_confined_observer_groups"])
+
     # 4. TimeStamp as a value type: spec -> code, code -> spec --------------------------------------------
     exe_c = build.build("drv_stamp_cells", san="address,undefined", driver_dir="stamps")
     hs2, info2, ag2 = adtcheck.gen_histories(chk, SPEC, "StampCells", "StampCellsGen.cfg", budget, 7,
@@ -731,6 +939,20 @@ def run(chk, replay=None):
     chk.cov["concurrent_bursts"]["tsan"] = len(tcfgs)
     chk.cov["concurrent_bursts"]["events"] += sum(len(e) for e in execs_t)
     chk.cov["evaluations"] += len(cfgs) + len(tcfgs)
+    if cross_future is not None:
+        cexecs, cstderr, cwall = cross_future.result()
+        chk.log("bursts crossing 2^31 / 2^32: %d executed in %.1fs" % (len(cexecs), cwall))
+        acc, rej = validate_bursts(chk, cexecs, cross_cfgs, "c19-burst-cross", "", cstderr)
+        crossed = []
+        for e in cexecs:
+            his = sorted({x["v"][0] for x in e if x.get("e") == "Fresh"})
+            crossed.append(his)
+        chk.cov["concurrent_bursts"]["crossing"] = {"bursts": len(cexecs), "high_limbs_seen": crossed}
+        if not rej and not (len(crossed) == 2 and {1, 2} <= set(crossed[0]) and {3, 4} <= set(crossed[1])):
+            raise InfraError("vacuity guard: the crossing bursts did not cross 2^31 / 2^32: high limbs %s" % crossed)
+        chk.cov["evaluations"] += len(cexecs)
+    wide_collect(chk, wide_future)
+    wide_pool.shutdown()
     far_collect(chk, far_hs, far_futures)
     far_pool.shutdown()
     collect_design()
@@ -740,7 +962,8 @@ def run(chk, replay=None):
     chk.cov["rule"] = ("histories = paths of TLC's complete state graphs of the bounded instances (all paths up to the budgeted length, one shortest "
                        "path per transition, seeded random walks); non-trivial = contains a notification / poll / destruction (observers) or a "
                        "renewal / copy / move / destruction (stamps); distinct = distinct (action,argument) sequences, observers counted per "
-                       "object variant; plus recorded random executions and concurrent bursts, each counted once in evaluations")
+                       "object variant; plus recorded random executions, concurrent bursts, thread groups, far-stamp and wide histories, each counted once "
+                       "in evaluations (far / wide histories also once in distinct_nontrivial)")
 
 
 def do_replay(chk, path):
@@ -753,6 +976,19 @@ def do_replay(chk, path):
         pool = ThreadPoolExecutor(max_workers=1)
         far_collect(chk, [rep["history"]], far_start(pool, exe, [rep["history"]]), tag="replay")
         pool.shutdown()
+    elif kind == "history" and rep.get("sig_prefix") == API_WIDE:
+        exe = build.build("drv_observers_wide", san="address,undefined", driver_dir="observers")
+        adtcheck.replay(chk, exe, [rep["history"]], "replay", API_WIDE, isolate=0, timeout=3000)
+    elif kind == "threads":
+        san = rep.get("san", "")
+        exe = build.build("drv_observers_mt", backend="Debug", san="thread", driver_dir="observers") if san == "thread" \
+            else build.build("drv_observers_mt", driver_dir="observers")
+        # the recorded per-thread history is the evidence: it is validated again; then the group is run again
+        acc, rej, _ = trace.validate(os.path.join(SPEC, "ObserversTrace.tla"), os.path.join(SPEC, "ObserversTrace.cfg"), [rep["events"]], "replay-recorded")
+        for rj in rej:
+            chk.violation(sig_of(API_MT, {"action": rj["event"].get("a"), "cls": "san=%s" % (san or "none"), "field": "trace-rejected"}),
+                          "%s: recorded per-thread history rejected again at event %d" % (API_MT, rj["line"]), rep)
+        run_mt(chk, exe, [rep["config"]], "replay-mt", san)
     elif kind == "history":
         if is_obs:
             exe = build.build("drv_observers", san="address,undefined")
